@@ -48,10 +48,13 @@ def assign_roles(chain):
     roles["payload"] = expect(j + 3, "take_until", b",")
     expect(j + 4, "tag", b",")
     roles["fill"] = expect(j + 5, "digit1")
-    roles["star"] = expect(j + 6, "tag", b"*")
-    roles["checksum"] = expect(j + 7, "hex_u32")
-    if len(chain) != j + 8:
-        raise Unanalysable("sentence grammar: %d trailing elements" % (len(chain) - j - 8))
+    jj = j + 6
+    while el(jj) is not None and el(jj).kind == "remainder":
+        jj += 1          # unparsed rest of a captured slice (C08 decides whether that is acceptable)
+    roles["star"] = expect(jj, "tag", b"*")
+    roles["checksum"] = expect(jj + 1, "hex_u32")
+    if len(chain) != jj + 2:
+        raise Unanalysable("sentence grammar: %d trailing elements" % (len(chain) - jj - 2))
     return roles
 
 
@@ -79,7 +82,7 @@ class Fsm:
                 continue
             chain, side, unresolved = grammar.analyse_path(p.st)
             c.chain = chain
-            c.roles = assign_roles(chain)
+            c.roles = assign_roles(grammar.flatten_chain(chain))
             r = c.roles
             c.atoms = {
                 "n": parsed_atom(r["num_fragments"]), "k": parsed_atom(r["fragment_number"]),
